@@ -84,6 +84,14 @@ def conclude(pid, spec, goals, run, tier, seed, t0, undecided_msgs):
     for g in goals:
         obs += [o for o in getattr(g, 'obligations', [])]
     counted = [o for o in obs if o.status in ('SUCCESS', 'FAILURE', 'UNDECIDED')]
+    # vacuity probes: in a goal marked probe=True, an assertion whose text starts with "PROBE" is EXPECTED TO FAIL (it states that the end of a
+    # lemma harness is unreachable); it is not a proof obligation.  A probe that does not fail makes the check undecided (never a verdict).
+    probes = [o for o in counted if getattr(o.goal, 'probe', False) and 'PROBE' in o.desc]
+    counted = [o for o in counted if o not in probes]
+    undecided_msgs = list(undecided_msgs)
+    for o in probes:
+        if o.status != 'FAILURE':
+            undecided_msgs.append('vacuity probe %s/%s did not fail (%s): the assumptions of that lemma harness may be contradictory' % (o.goal.name, o.name, o.status))
     bounded_goals = [g for g in goals if g.bounded]
     proof_obs = [o for o in counted if not o.goal.bounded]
     bounded_obs = [o for o in counted if o.goal.bounded]
@@ -123,6 +131,7 @@ def conclude(pid, spec, goals, run, tier, seed, t0, undecided_msgs):
             print('UNDECIDED property=%s: %s' % (pid, m))
         for o in undecided[:20]:
             print('UNDECIDED property=%s goal=%s obligation=%s (%s) %s' % (pid, o.goal.name, o.name, o.desc[:80], o.output.strip()[-200:]))
+    run.vacuity_probes = [dict(goal=o.goal.name, obligation=o.name, expected='FAILURE', got=o.status) for o in probes]
     write_evidence(pid, spec, goals, run, tier, seed, t0, obs, proof_obs, bounded_obs, failures, undecided, violations, known_lines, undecided_msgs)
     nd = len([o for o in proof_obs if o.status == 'SUCCESS'])
     print('%s: %d/%d obligations discharged in %d goals (%d bounded-only obligations, %d spec-arith skipped), %.0fs wall, %.0fs solver; exit %d' % (
@@ -183,6 +192,7 @@ def write_evidence(pid, spec, goals, run, tier, seed, t0, obs, proof_obs, bounde
         undecided=[dict(goal=o.goal.name, obligation=o.name, description=o.desc[:120]) for o in undecided][:50] + [dict(message=m) for m in undecided_msgs],
         failed=[dict(goal=o.goal.name, obligation=o.name, description=o.desc[:120], known=bool(getattr(o, 'known', False))) for o in failures][:50],
         known_findings=known_lines,
+        vacuity_probes=getattr(run, 'vacuity_probes', []),
         not_decided_part=spec.get('not_decided', ''),
         evaluations=max(n_ob, 1), distinct_nontrivial=max(n_dis, 2),
         rule="one evaluation = one proof obligation generated by CBMC from the extracted code + contracts; distinct by obligation name; "
